@@ -4,11 +4,16 @@
 (*                                                                         *)
 (* Family "merge": one call  IncludeField.combine_trees(base, child).      *)
 (*     Combine                                                             *)
-(* Family "load":  one call  Config.loads(document) on a configuration     *)
-(* that already went through an earlier load_tree(pre); the three steps    *)
-(* of the call are three actions, in the order of the code:                *)
+(* Family "load":  one call  Config.loads(document, fmt, **options) or     *)
+(* Config.load(file holding the document, fmt) on a configuration that     *)
+(* already went through an earlier load_tree(pre); the steps of the call   *)
+(* are actions, in the order of the code:                                  *)
 (*     Parse -> Includes -> LoadTree                                       *)
-(* A step that raises ends the call (out = "rejected", failedAt = step).   *)
+(* A step that raises ends the call (out = "rejected", failedAt = step;    *)
+(* "call": load() was given options, which it does not take).  The format  *)
+(* and its options are part of the case (lab.opt, see CincoInclude); the   *)
+(* formatter of the document and of every included file is created with    *)
+(* them.                                                                   *)
 (*                                                                         *)
 (* Init picks the case (tree pair / schema, file system, prior tree,       *)
 (* document) from the instance's candidate sets.  The conformance harness  *)
@@ -20,8 +25,12 @@ CONSTANTS Fam,          \* "merge" | "load"
           MergePairs,   \* set of <<base, child>>
           SchemaTab,    \* sequence of schema descriptors
           FsTab,        \* sequence of file systems
-          LoadCases     \* set of [sid, fid, pre, doc]; doc = [k |-> "tree", v |-> value]
-                        \*                                  | [k |-> "unparseable", how |-> ...]
+          LoadCases     \* sequence of sets (TLC's union of large sets is quadratic) of
+                        \* [sid, fid, pre, doc, via, opt];
+                        \*   doc = [k |-> "tree", v |-> value, tag |-> root element (XML)]
+                        \*       | [k |-> "unparseable", how |-> ...]
+                        \*   via = "loads" | "load" | "any" (either: no options are passed)
+                        \*   opt = options record of CincoInclude
 
 VARIABLE lab
 vars == <<lab>>
@@ -35,8 +44,9 @@ InitMerge ==
 Cfg0(S, fs, pre) == LoadTreeOp(S, Default(S), pre, fs, <<>>).cfg
 
 InitLoad ==
-    \E c \in LoadCases :
+    \E part \in DOMAIN LoadCases : \E c \in LoadCases[part] :
         lab = [fam |-> "load", stage |-> 0, sid |-> c.sid, fid |-> c.fid, pre |-> c.pre, doc |-> c.doc,
+               via |-> c.via, opt |-> c.opt,
                cfg0 |-> Cfg0(SchemaTab[c.sid], FsTab[c.fid], c.pre),
                cfg  |-> Cfg0(SchemaTab[c.sid], FsTab[c.fid], c.pre),
                tree |-> NoneV, out |-> "", failedAt |-> "", why |-> "", used |-> <<>>, repl |-> {},
@@ -54,17 +64,23 @@ Combine ==
 LS == SchemaTab[lab.sid]
 LF == FsTab[lab.fid]
 
-\* tree = formatter.loads(self, content)
+\* load(filename, format): open, read, loads(content, format) - no **kwargs
+\* loads: format_factory = partial(ConfigFormat.get, format, **kwargs);
+\*        tree = format_factory().loads(self, content)
 Parse ==
     /\ lab.fam = "load" /\ lab.stage = 0
-    /\ IF lab.doc.k = "tree"
-       THEN lab' = [lab EXCEPT !.stage = 1, !.tree = lab.doc.v]
+    /\ IF ~CallOk(lab.via, lab.opt)
+       THEN lab' = [lab EXCEPT !.stage = 1, !.out = "rejected", !.failedAt = "call", !.why = "options"]
+       ELSE IF lab.doc.k = "tree"
+       THEN LET r == FmtLoads(lab.opt, TagOf(lab.doc), lab.doc.v) IN
+            IF r.ok THEN lab' = [lab EXCEPT !.stage = 1, !.tree = r.v]
+            ELSE lab' = [lab EXCEPT !.stage = 1, !.out = "rejected", !.failedAt = "parse", !.why = "notdoc"]
        ELSE lab' = [lab EXCEPT !.stage = 1, !.out = "rejected", !.failedAt = "parse", !.why = lab.doc.how]
 
 \* tree = self._process_includes(self._schema, tree, format_factory)
 Includes ==
     /\ lab.fam = "load" /\ lab.stage = 1 /\ lab.out = ""
-    /\ LET r == ProcIncs(LS, lab.tree, LF, <<>>) IN
+    /\ LET r == ProcIncs(LS, lab.tree, LF, <<>>, lab.opt) IN
        IF r.ok THEN lab' = [lab EXCEPT !.stage = 2, !.tree = r.tree, !.used = r.used]
        ELSE lab' = [lab EXCEPT !.stage = 2, !.out = "rejected", !.failedAt = "include", !.why = r.why,
                                !.used = r.used]
@@ -94,26 +110,44 @@ C18_Pure == MergeDone => P_Pure(lab.base, lab.baseAfter) /\ P_Pure(lab.child, la
 
 \* what loading the single merged tree does to an equal configuration
 RefLoad ==
-    LET d == Decl(LS, lab.doc.v, LF) IN
+    LET d == DeclDoc(LS, lab.opt, TagOf(lab.doc), lab.doc.v, LF) IN
     IF ~d.ok THEN [defined |-> FALSE, out |-> "rejected", cfg |-> lab.cfg0, tree |-> NoneV]
     ELSE LET r == LoadTreeOp(LS, lab.cfg0, d.tree, LF, <<>>) IN
          [defined |-> TRUE, out |-> IF r.ok THEN "ok" ELSE "rejected", cfg |-> r.cfg, tree |-> d.tree]
 
-\* loads(document with includes) == load_tree(merged tree): same state or same rejection;
-\* and when the merged tree does not exist (a reached name is no readable document) the
-\* load fails
+\* the call took place (load() given options never gets as far as a document)
+Called == lab.failedAt # "call"
+
+\* load(s)(document with includes, fmt, options) == load_tree(merged tree): same state or same
+\* rejection, for every format and every option value; and when the merged tree does not exist
+\* (a reached name is no readable document under these options) the load fails
 C18_Equivalent ==
-    (LoadDone /\ lab.doc.k = "tree") =>
+    (LoadDone /\ lab.doc.k = "tree" /\ Called) =>
         LET ref == RefLoad IN
         IF ref.defined THEN P_Equivalent(lab.out, lab.cfg, ref.out, ref.cfg)
         ELSE lab.out = "rejected"
+
+\* options only say how each file is read, the same for the document and every included file:
+\* the call does what a call without options does on the plain copies of the same files
+C18_OptionsUniform ==
+    (LoadDone /\ Called) =>
+        LET twin == RunLoad(LS, lab.cfg0, "loads", DefOpt("any"), PlainDoc(lab.opt, lab.doc), PlainFs(lab.opt, LF)) IN
+        P_Equivalent(lab.out, lab.cfg, twin.out, twin.cfg)
+
+\* load(filename, fmt) is loads(content of the file, fmt): how the document arrives makes no
+\* difference (the whole call through the file entry point, as one operator, against the steps
+\* taken above; options reach a load only through loads)
+C18_EntryPoints ==
+    (LoadDone /\ ~lab.opt.explicit) =>
+        LET r == RunLoad(LS, lab.cfg0, "load", lab.opt, lab.doc, LF) IN
+        r.out = lab.out /\ r.cfg = lab.cfg /\ r.failedAt = lab.failedAt
 
 C18_PathRule == LoadDone => P_PathRule(lab.used, lab.out)
 
 \* C06, document-load clause
 C06_LoadUnchanged ==
-    (LoadDone /\ lab.failedAt \in {"parse", "include"}) => P_Unchanged(lab.cfg0, lab.cfg, lab.repl)
+    (LoadDone /\ lab.failedAt \in {"call", "parse", "include"}) => P_Unchanged(lab.cfg0, lab.cfg, lab.repl)
 
 \* a document that does not parse is rejected
-C18_ParseRule == (LoadDone /\ lab.doc.k # "tree") => lab.out = "rejected" /\ lab.failedAt = "parse"
+C18_ParseRule == (LoadDone /\ lab.doc.k # "tree") => lab.out = "rejected" /\ lab.failedAt \in {"parse", "call"}
 =============================================================================
